@@ -37,12 +37,17 @@ RULE = ("histories of operations on caller-owned objects: decorator objects (22 
         "auto_attribs, on_setattr given as NO_OP / hook / list, slots, these=), attr.ib() objects, "
         "these / make_class attrs / class_body dicts, metadata dicts, validator / converter / hook "
         "lists; definitions = applying a decorator object to a freshly exec'ed class body from a "
-        "catalogue of 37 bodies (plain, annotated-only, mixed unannotated (auto_attribs fallback), own "
+        "catalogue of 47 bodies (plain, annotated-only, mixed unannotated (auto_attribs fallback), own "
         "__hash__/__eq__/__setattr__/__init__, pre/post-init hooks, frozen / hooked / plain / post-init "
         "/ exception bases, converters, validators, field-level hooks, kw_only fields, bad default "
-        "order, ClassVar, init=False, metadata) or make_class. Generated: ALL ordered pairs (A,B) of "
+        "order, ClassVar, init=False, metadata, converter WRAPPER closures of one def each - converter "
+        "lists / converters.pipe / converters.optional / the harness's own converter factory, whose "
+        "members are annotated differently or not at all -, string annotations, class-object "
+        "annotations, subclasses of bases with string annotations) or make_class; and CLASS "
+        "OPERATIONS on classes that exist already (attrs.resolve_types; fields/fields_dict/has; "
+        "Attribute.evolve; construct+validate+asdict) as history steps between and after definitions. Generated: ALL ordered pairs (A,B) of "
         "bodies under one shared decorator object (quick: full catalogue for 2 decorators, a 16-body "
-        "core for 10, 8 sampled bodies for the rest; thorough: full catalogue for all 22), sampled "
+        "core for 11, 6 sampled bodies for the rest; thorough: full catalogue for 12 decorators, 24 sampled bodies for the other 10), sampled "
         "histories of 3-5 bodies under one decorator, shared `these` dict (one or two decorator "
         "objects, dict / attr.ib mutated in between), make_class with shared attrs dict holding the "
         "three hook names and shared class_body dict (mutated in between, mixed with attr.s(these=)), "
@@ -50,19 +55,24 @@ RULE = ("histories of operations on caller-owned objects: decorator objects (22 
         "dict and validator/converter/hook lists mutated between and after definitions, attrs.Converter "
         "INSTANCES (all takes_self/takes_field variants) shared across definitions on differently "
         "named fields while the later class has a field of the earlier name with another converter "
-        "(also through a shared attr.ib() and make_class). For every "
-        "definition k the harness also runs the history WITHOUT the other definitions; compared: "
+        "(also through a shared attr.ib() and make_class), (A, class operation on A, B) for all pairs "
+        "of 12 type-relevant bodies and random definition/class-operation histories. For every "
+        "definition k the harness also runs the history WITHOUT the other definitions (keeping the class "
+        "operations applied to class k itself); compared: "
         "fingerprint of class k observed at the END of the full history (definition exception class; "
-        "fields: name, kw_only, default, init, validator and converter members by firing them, "
-        "metadata keys, inherited; who provides __hash__/__eq__/__init__; __init__ signature; "
+        "fields: name, kw_only, default, init, type (string vs object, by name), validator and converter members by firing them, "
+        "metadata keys, inherited; who provides __hash__/__eq__/__init__; __init__ signature and "
+        "__init__.__annotations__ per parameter (cross-checked against inspect.signature); "
         "pre/post-init hooks running; hash(inst) working; per field which converters produced the "
         "value stored by __init__ (converters tag their result); what fires on `inst.f = v` per field or "
         "FrozenInstanceError) == fingerprint alone == model prediction, and container contents at "
-        "the end == what the caller put there. distinct = distinct history; non-trivial = at least "
+        "the end == what the caller put there, and no Attribute OBJECT is shared between the "
+        "__attrs_attrs__ of two classes (catalogue bases included). distinct = distinct history; non-trivial = at least "
         "two definitions")
 EXTRA_TRUSTED = [
     "the facts about the eight base classes used by the catalogue (frozen, exception, "
-    "__attrs_own_setattr__, hashable, inherited hooks, own fields) are written down in the harness "
+    "__attrs_own_setattr__, hashable, inherited hooks, own fields with their types) and the annotation "
+    "table of the recording converters (model: conv_ann) are written down in the harness "
     "(BASE_FACTS) and passed to the model as part of the class specification",
     "CPython class creation: a namespace with __eq__ and no __hash__ gets __hash__ = None (modelled "
     "in `observe`); closures/cells semantics of nested functions (the model's explicit cell records)",
@@ -1248,13 +1258,17 @@ def generate(tier, seed):
     names = list(BODIES)
     # 1. one shared decorator object, all ordered pairs
     for d in DECOS:
-        pool = names if (thorough or d in ("s_ad_frozen", "define")) else CORE_BODIES
+        pool = names if (thorough or d == "define") else CORE_BODIES
+        if thorough and d not in CORE_DECOS:
+            pool = rng.sample(names, 24)
+        if not thorough and d in CORE_DECOS and d != "define":
+            pool = rng.sample(CORE_BODIES, 13)
         if not thorough and d not in CORE_DECOS:
-            pool = rng.sample(CORE_BODIES, 8)
+            pool = rng.sample(CORE_BODIES, 6)
         for a, bb in itertools.product(pool, repeat=2):
             cases.append(shared_deco_case(d, [a, bb]))
     # 2. triples / longer histories (sampled)
-    n_long = 6000 if thorough else 300
+    n_long = 4000 if thorough else 200
     dn = list(DECOS)
     for _ in range(n_long):
         d = rng.choice(dn)
